@@ -1,9 +1,16 @@
 import NucleoVerif.Props.C04_Compressed
+import NucleoVerif.Lemmas.OptSafe
 /-! # C10 (companion file) — the matrix path does not depend on the matcher's history
 
 The scratch slab is allocated once and never cleared; `fuzzy_match_optimal` rewrites only part of the score row and of
 the back-pointer matrix per call.  In the code-level model (`Model/OptImpl.lean`) the prior content of both is an
-argument; by `optimalImpl_eq_optimalDP` the result does not depend on it.  (The other paths keep no state in the slab.) -/
+argument; by `optimalImpl_eq_optimalDP` the result does not depend on it.  (The other paths keep no state in the slab.)
+
+Second theorem: the index arithmetic of the matrix path.  `Model/OptImpl.lean: optimalSafe` is the conjunction of the side
+conditions under which no `u16`/`usize` subtraction of `setup`, `score_row`, `populate_matrix`, the best-cell search and
+`reconstruct_optimal_path` underflows, every slice range and index is inside its slice, and the traceback loop ends
+(running out of fuel counts as a failure); `C10_matrix_indices_in_range` proves it for every input.  (Overflow of the
+score additions is not part of it: C03_Bound.) -/
 namespace NucleoVerif.OptImpl
 open NucleoVerif NucleoVerif.Gen NucleoVerif.Gen.Opt NucleoVerif.DP
 
@@ -29,5 +36,38 @@ example :
     optimalImpl cfg cols [97, 98, 99] 0 (List.replicate 4 ⟨7, 3, true⟩) (List.replicate 12 ⟨3⟩) =
       optimalImpl cfg cols [97, 98, 99] 0 ((List.range 4).map fun i => ⟨900 + i, i, false⟩) (List.replicate 12 ⟨0⟩) := by
   decide
+
+/-- **C10, the matrix path computes no index out of range and no negative difference, and its traceback ends**: every
+    side condition of `optimalSafe` — one per `u16`/`usize` subtraction and per slice or index expression of `setup`,
+    `score_row`, `populate_matrix`, the best-cell search and `reconstruct_optimal_path` — holds, for every window, needle of
+    two or more characters that fits it, configuration and prior scratch content -/
+theorem C10_matrix_indices_in_range (cfg : Cfg) (ext : Ext) (hrep : Rep) (h n : List Nat) (start end_ : Nat)
+    (cur0 : List ScoreCell) (cells0 : List MatrixCell)
+    (hN : 2 ≤ n.length) (hNW : n.length ≤ (windowCols cfg ext hrep h start end_).length)
+    (hwhite : cfg.white < 256) (hdelim : cfg.delim < 256)
+    (hcur : cur0.length = (windowCols cfg ext hrep h start end_).length + 1 - n.length)
+    (hcells : ((windowCols cfg ext hrep h start end_).length + 1 - n.length) * n.length ≤ cells0.length) :
+    optimalSafe cfg (windowCols cfg ext hrep h start end_) n start cur0 cells0 = true := by
+  generalize hcols : windowCols cfg ext hrep h start end_ = cols at *
+  have hok := windowCols_ok cfg ext hrep h start end_
+  rw [hcols] at hok
+  have hb : ∀ x ∈ cols, x.bonus < 256 := by
+    intro x hx
+    obtain ⟨j, hj, hget⟩ := List.getElem_of_mem hx
+    have := (hok j x (by rw [← hget]; exact List.getElem?_eq_getElem hj)).2
+    rw [this]
+    unfold bonusAt
+    have := specBonus_le cfg.white cfg.delim (pcls cfg.initial (clsOf cfg ext h) (start + j)) (clsOf cfg ext h (start + j))
+    unfold bonusCap at this
+    omega
+  by_cases hm : (rowOffs n cols).length = n.length
+  · have g : Good ⟨cols, n, rowOffs n cols, prefix_bonus_init cfg.preferPrefix start⟩ := good_of_greedy _ hN hb (rowOffs_greedy cols n hm)
+    exact optimalSafe_ctx cfg ⟨cols, n, rowOffs n cols, prefix_bonus_init cfg.preferPrefix start⟩ g start hNW rfl rfl cur0 cells0 hcur hcells
+  · unfold optimalSafe
+    match n, hN with
+    | n0 :: n1 :: ns, _ => simp only [hm, ne_eq, not_false_eq_true, if_true]
+
+/-- the conditions are not vacuous: they fail for offsets the greedy scan cannot produce -/
+example : scoreRowSafe 4 12 6 3 3 1 = false ∧ scoreRowSafe 4 12 6 1 3 1 = true := by decide
 
 end NucleoVerif.OptImpl
